@@ -203,12 +203,10 @@ def conflictGuard (doNothing noUpdates noFields : Bool) (body : Doc) : Doc :=
   else if !noUpdates && noFields then [Piece.err "QueryException".toList]
   else body
 
-/-- kwargs inside `_SetOperation.get_sql` -/
+/-- kwargs inside `_SetOperation.get_sql`: `base_query._set_kwargs_defaults(kwargs)`; `with_alias` / `subquery`
+    are named parameters -/
 def setopCtx (c : Ctx) (fl : QFlags) : Ctx :=
-  { c with
-    withAlias := false, subquery := false
-    dialect := (match c.dialect with | none => some fl.dialect | s => s)
-    quote := (match c.quote with | .absent => .given fl.cls.quoteChar | g => g) }
+  { (setDefaults c fl.cls fl.dialect fl.asKeyword) with withAlias := false, subquery := false }
 
 def howDoc (how : Str) : Doc := if how ≠ [] then [.kw how, kws " "] else []
 
